@@ -48,7 +48,9 @@ def extra(chk, thorough):
     for cut in range(len(base) + 1):
         for what in ("close", "lost"):
             for reset in (False, True):
-                evs = base[:cut] + ([("reset_begin",)] if reset else []) + [(what,)] + [("tick", 1000), ("issue", 9, "nb1"), (what,), ("close",), ("tick", 6000)]
+                evs = base[:cut] + ([("reset_begin",)] if reset else []) + [(what,)] + \
+                    ([("tick", 300), ("close",)] if what == "lost" else []) + \
+                    [("tick", 1000), ("issue", 9, "nb1"), (what,), ("close",), ("tick", 6000)]
                 r = A.Runner()
                 try:
                     real = []
